@@ -155,7 +155,7 @@ def sh(cmd, timeout, cwd=None, env=None):
 
 
 GEN_TARGETS = {'kernels': 'Gen/Kernels.v', 'validators': 'Gen/Validators.v', 'signatures': 'Gen/Signatures.v', 'classes': 'Gen/Classes.v',
-               'projection': 'Gen/Projection.v', 'thermal': 'Gen/Thermal.v', 'deviceset': 'Gen/DeviceSet.v', 'functions': 'Gen/Functions.v', 'mfdeviceset': 'Gen/MFDeviceSet.v', 'storage': 'Gen/Storage.v', 'constraints': 'Gen/Constraints.v', 'solve': 'Gen/Solve.v', 'utils': 'Gen/Utils.v', 'loaders': 'Gen/Loaders.v'}
+               'projection': 'Gen/Projection.v', 'thermal': 'Gen/Thermal.v', 'deviceset': 'Gen/DeviceSet.v', 'functions': 'Gen/Functions.v', 'mfdeviceset': 'Gen/MFDeviceSet.v', 'storage': 'Gen/Storage.v', 'constraints': 'Gen/Constraints.v', 'solve': 'Gen/Solve.v', 'utils': 'Gen/Utils.v', 'loaders': 'Gen/Loaders.v', 'basedevice': 'Gen/BaseDevice.v'}
 
 
 SNAPSHOTS = os.path.join(VERIF, 'translator', 'snapshots')
